@@ -100,8 +100,10 @@ fn expect_same(cx: &Ctx, lo: &mut Local, clause: &str, entry: &str, a: &SocketAd
     // signature: consumer, failure shape, and the witness-derived cause class: port 65535 (the word crate's "no port" marker)
     // dominates; otherwise the address class ("v4", "v6:<class>"). Display failures are total, so they carry no cause.
     let mut f = vec![("entry", entry.to_string()), ("shape", shape.to_string())];
-    if clause != "C19.display" {
+    if clause == "C19.words" {
         f.push(("cause", if a.port() == 65535 { format!("port-65535:{}", if a.is_ipv4() { "v4" } else { "v6" }) } else { fam(a) }));
+    } else if clause != "C19.display" {
+        f.push(("family", if a.is_ipv4() { "v4".into() } else { "v6".into() }));
     }
     for (k, v) in extra {
         if *k != "variant" {
@@ -284,6 +286,34 @@ fn acceptable_core(s: &str, a: &SocketAddr) -> Option<&'static str> {
     None
 }
 
+/// panic message with digit runs collapsed (so one indexing bug = one signature)
+fn panic_class(p: &str) -> String {
+    let mut out = String::new();
+    let mut in_num = false;
+    for c in p.chars().take(90) {
+        if c.is_ascii_digit() {
+            if !in_num {
+                out.push('N');
+            }
+            in_num = true;
+        } else {
+            in_num = false;
+            out.push(c);
+        }
+    }
+    out
+}
+
+/// witness-derived shape of a text: "<n>-dictionary-words" when every token is a dictionary word, else "other"
+fn word_shape(s: &str) -> String {
+    let toks: Vec<String> = s.split(|c: char| c == '-' || c == '.' || c.is_whitespace()).filter(|p| !p.is_empty()).map(|p| p.to_lowercase()).collect();
+    if !toks.is_empty() && toks.iter().all(|t| saorsa_core::bootstrap::fourwords::dictionary4k::DICTIONARY.get_index(t).is_some()) {
+        format!("{}-dictionary-words", toks.len())
+    } else {
+        "other".into()
+    }
+}
+
 fn mutations(base: &str) -> Vec<(String, String)> {
     const M: [&str; 20] = ["0", "9", "a", "z", "A", ":", ".", "-", " ", "(", ")", "/", "%", "[", "]", "\u{0}", "\u{e9}", "x", "5", "\n"];
     let chars: Vec<char> = base.chars().collect();
@@ -370,7 +400,10 @@ fn main() {
         "full_battery_rule": if thorough { "all" } else { "all four octets in {0,1,10,100,127,128,192,254,255}" }}));
 
     // (b) all 65 536 ports for 3 addresses; (c) all (c,d) of two /16s at 2 ports
-    let port_hosts = [Ipv4Addr::new(10, 0, 0, 1), Ipv4Addr::new(203, 0, 113, 77), Ipv4Addr::new(255, 255, 255, 255)];
+    let mut port_hosts = vec![Ipv4Addr::new(10, 0, 0, 1), Ipv4Addr::new(203, 0, 113, 77), Ipv4Addr::new(255, 255, 255, 255)];
+    if thorough {
+        port_hosts.extend([Ipv4Addr::new(0, 0, 0, 0), Ipv4Addr::new(127, 0, 0, 1), Ipv4Addr::new(192, 168, 1, 1), Ipv4Addr::new(8, 8, 8, 8), Ipv4Addr::new(100, 64, 0, 1)]);
+    }
     par_for(256 * port_hosts.len(), |u| {
         if budget.exceeded() {
             return;
@@ -384,15 +417,15 @@ fn main() {
         lo.flush(&distinct);
     });
     levels.push(format!("all-ports @{:.1}s", run.elapsed().as_secs_f64()));
-    let nets: [(u8, u8); 2] = [(10, 0), (198, 51)];
-    let net_ports: [u16; 2] = [80, 65534];
+    let nets: Vec<(u8, u8)> = run.tier.pick(vec![(10, 0), (198, 51)], vec![(10, 0), (198, 51), (0, 0), (255, 255), (192, 168), (127, 0)]);
+    let net_ports: Vec<u16> = run.tier.pick(vec![80, 65534], vec![80, 65534, 0, 65535]);
     par_for(256 * nets.len() * net_ports.len(), |u| {
         if budget.exceeded() {
             return;
         }
         let mut lo = Local::default();
-        let (n1, n2) = nets[u / 256 % 2];
-        let p = net_ports[u / 512];
+        let (n1, n2) = nets[u / 256 % nets.len()];
+        let p = net_ports[u / (256 * nets.len())];
         let c = (u % 256) as u8;
         for d in 0..=255u8 {
             battery(&cx, &mut lo, SocketAddr::new(IpAddr::V4(Ipv4Addr::new(n1, n2, c, d)), p), "v4", if thorough { Level::Full } else { Level::Core });
@@ -400,7 +433,7 @@ fn main() {
         lo.flush(&distinct);
     });
     levels.push(format!("/16 sweeps @{:.1}s", run.elapsed().as_secs_f64()));
-    bounds.insert("sweeps".into(), json!({"all_ports_hosts": port_hosts.iter().map(|h| h.to_string()).collect::<Vec<_>>(), "ports_each": 65536, "slash16": ["10.0.c.d", "198.51.c.d"], "slash16_ports": net_ports, "slash16_addresses": 4 * 65536,
+    bounds.insert("sweeps".into(), json!({"all_ports_hosts": port_hosts.iter().map(|h| h.to_string()).collect::<Vec<_>>(), "ports_each": 65536, "slash16": nets.iter().map(|n| format!("{}.{}.c.d", n.0, n.1)).collect::<Vec<_>>(), "slash16_ports": net_ports, "slash16_addresses": nets.len() * net_ports.len() * 65536,
         "full_battery_rule": if thorough { "all" } else { "all-ports: ports with low byte 0x00 or 0x_f; /16: core battery" }}));
 
     // (d) IPv6 classes x port grid
@@ -432,9 +465,9 @@ fn main() {
 
     // ---- malformed strings: all 1-site mutations of valid renderings ------------------------------------------------
     let mut_bases: Vec<SocketAddr> = {
-        let mut v: Vec<SocketAddr> = vec!["192.168.1.10:9000".parse().unwrap(), "0.0.0.0:0".parse().unwrap(), "255.255.255.255:65534".parse().unwrap(), "8.8.8.8:53".parse().unwrap(), "[::1]:80".parse().unwrap(), "[2001:db8::1]:9000".parse().unwrap()];
+        let mut v: Vec<SocketAddr> = vec!["192.168.1.10:9000".parse().unwrap(), "0.0.0.0:0".parse().unwrap(), "255.255.255.255:65534".parse().unwrap(), "8.8.8.8:53".parse().unwrap(), "[::1]:80".parse().unwrap(), "[2001:db8::1]:9000".parse().unwrap(), "[::ffff:192.0.2.33]:8080".parse().unwrap()];
         if thorough {
-            v.extend(["127.0.0.1:1".parse::<SocketAddr>().unwrap(), "10.0.0.1:65535".parse().unwrap(), "100.64.99.1:32768".parse().unwrap(), "[fe80::1%3]:443".parse().unwrap(), "[::ffff:192.0.2.33]:8080".parse().unwrap(), "[ffff:ffff:ffff:ffff:ffff:ffff:ffff:ffff]:65534".parse().unwrap()]);
+            v.extend(["127.0.0.1:1".parse::<SocketAddr>().unwrap(), "10.0.0.1:65535".parse().unwrap(), "100.64.99.1:32768".parse().unwrap(), "[fe80::1%3]:443".parse().unwrap(), "[fd12:3456:789a:1::1]:8080".parse().unwrap(), "[ffff:ffff:ffff:ffff:ffff:ffff:ffff:ffff]:65534".parse().unwrap()]);
         }
         v
     };
@@ -469,7 +502,7 @@ fn main() {
             let std_view = s.parse::<SocketAddr>().ok();
             let wit = |what: String| (json!({"valid_rendering": base, "of_address": a.to_string(), "form": form, "mutation": site, "mutated_text": s, "result": format!("{r:?}")}), what);
             match &r {
-                Err(p) => cx.run.violation_lazy("C19.nopanic", feats(&[("entry", "NetworkAddress::from_str".into()), ("form", form.to_string())]), || wit(format!("from_str({s:?}) panicked: {p}"))),
+                Err(p) => cx.run.violation_lazy("C19.nopanic", feats(&[("entry", "NetworkAddress::from_str".into()), ("panic", panic_class(p)), ("input", word_shape(s))]), || wit(format!("from_str({s:?}) panicked: {p}"))),
                 Ok(Err(_)) => {
                     lo.outcomes.insert(hash64(&("mut-err", form)));
                     if let Some(b) = std_view {
@@ -496,6 +529,53 @@ fn main() {
         lo.flush(&distinct);
     });
     levels.push(format!("mutations @{:.1}s", run.elapsed().as_secs_f64()));
+
+    // ---- word-structure sweep: every dictionary word at the first / last position of 4, 6, 9 and 12 word strings --------
+    // (the first word of the IPv6 forms selects the decoder's category branch). Oracle: never a panic; an accepted
+    // string must be stable: decoding the library's words of the returned address gives that address again, or fails
+    // only in the ways already judged by C19.words (so only panics and instabilities are reported here).
+    {
+        let dict = &saorsa_core::bootstrap::fourwords::dictionary4k::DICTIONARY;
+        let fillers = ["a", "zurich", "abstract"];
+        let counts = [4usize, 6, 9, 12];
+        let sweep_ok = AtomicU64::new(0);
+        let sweep_n = AtomicU64::new(0);
+        par_for(4096, |wi| {
+            if budget.exceeded() {
+                return;
+            }
+            let Some(w) = dict.get_word(wi as u16) else { return };
+            let mut lo = Local::default();
+            for &n in &counts {
+                for f in fillers {
+                    for pos in [0usize, n - 1] {
+                        for sep in ["-", " "] {
+                            let toks: Vec<&str> = (0..n).map(|i| if i == pos { w } else { f }).collect();
+                            let s = toks.join(sep);
+                            lo.evals += 1;
+                            sweep_n.fetch_add(1, Ordering::Relaxed);
+                            let r = parse_na(&s);
+                            match &r {
+                                Err(p) => cx.run.violation_lazy("C19.nopanic", feats(&[("entry", "NetworkAddress::from_str".into()), ("panic", panic_class(p)), ("input", format!("{n}-dictionary-words"))]), || {
+                                    (json!({"text": s, "result": format!("{r:?}"), "note": "every token is a dictionary word"}), format!("from_str({s:?}) panicked: {p}"))
+                                }),
+                                Ok(Ok(_)) => {
+                                    sweep_ok.fetch_add(1, Ordering::Relaxed);
+                                    lo.outcomes.insert(hash64(&("sweep-ok", n, pos == 0)));
+                                }
+                                Ok(Err(_)) => {
+                                    lo.outcomes.insert(hash64(&("sweep-err", n, pos == 0)));
+                                }
+                            }
+                        }
+                    }
+                }
+            }
+            lo.flush(&distinct);
+        });
+        bounds.insert("word_structure_sweep".into(), json!({"dictionary_words": 4096, "positions": ["first", "last"], "fillers": fillers, "word_counts": counts, "separators": ["-", " "], "strings": sweep_n.load(Ordering::Relaxed), "accepted": sweep_ok.load(Ordering::Relaxed)}));
+        levels.push(format!("word-structure sweep @{:.1}s", run.elapsed().as_secs_f64()));
+    }
     bounds.insert("mutations".into(), json!({"base_addresses": mut_bases.iter().map(|a| a.to_string()).collect::<Vec<_>>(), "forms": ["socketaddr", "display", "multiaddr", "words-hyphen", "words-space"], "renderings": mut_cases.len(),
         "sites": "every position: delete, truncate, replace by each of 20 characters, insert each of 20 characters", "mutants": mut_total.load(Ordering::Relaxed), "mutants_accepted": mut_ok.load(Ordering::Relaxed), "accepted_multiaddr_with_empty_or_trailing_segment(info)": mut_lenient.load(Ordering::Relaxed)}));
 
